@@ -592,6 +592,36 @@ C06_ProRata(t, g) ==
       IN /\ got * EntD < g.entD[p][f][d] + J * EntD
          /\ got * EntD > g.entD[p][f][d] - J * EntD - slack
 
+(***************************************************************************)
+(* Genesis (C12 at design level): genesis.go ExportGenesis / InitGenesis and *)
+(* types/genesis.go ValidateGenesis, as operators on the state.            *)
+(* Export writes pools (with rules), farm infos, sequence, params — not    *)
+(* the active-pool queue, which InitGenesis rebuilds: a pool is enqueued   *)
+(* at its end height unless Expired() says it is over at the import height *)
+(* (for an as-is export taken after block h-1 the import context has       *)
+(* height h, the next block to run).                                       *)
+(***************************************************************************)
+ExportG(s) == [pools |-> s.pools, fi |-> s.fi, seq |-> s.seq, params |-> s.params]
+
+SeqOf(p) == CHOOSE n \in 1..99 : PoolId(n) = p
+
+ValidateG(g) ==
+  /\ \A p \in DOMAIN g.pools : \A d \in DOMAIN g.pools[p].rules :
+       LET r == g.pools[p].rules[d] IN
+       /\ r.totalR > 0 /\ r.remaining >= 0 /\ r.rpb > 0
+       /\ (r.rps > 0 \/ r.remaining = r.totalR \/ g.pools[p].end = g.pools[p].lastH)
+  /\ \A p \in DOMAIN g.pools : g.seq >= SeqOf(p)
+  /\ \A p \in DOMAIN g.fi : \A f \in DOMAIN g.fi[p] : g.fi[p][f].locked > 0
+
+(* InitGenesis at context height h: Expired() with an empty queue *)
+ImportQueue(g, h) ==
+  {<<g.pools[p].end, p>> : p \in {q \in DOMAIN g.pools : h < g.pools[q].end}}
+
+C12_Farm_Accepted(s) == ValidateG(ExportG(s))
+(* the rebuilt queue is the queue: every pool that still awaits its end-block
+   refund is enqueued again *)
+C12_Farm_Queue(s) == ImportQueue(ExportG(s), s.h) = s.queue
+
 (* queue <-> pool bijection (C13 for farm) *)
 C13_QueueSound(t) ==
   \A q \in t.queue : q[2] \in DOMAIN t.pools /\ t.pools[q[2]].end = q[1] /\ q[1] >= t.h
@@ -693,6 +723,8 @@ Inv_C06_Budget == C06_Budget(st, gh)
 Inv_C06_Funded == C06_Funded(st, gh)
 Inv_C06_Covered == C06_Covered(st, gh)
 Inv_C06_ProRata == C06_ProRata(st, gh)
+Inv_C12_Farm_Accepted == C12_Farm_Accepted(st)
+Inv_C12_Farm_Queue == C12_Farm_Queue(st)
 Inv_C13_QueueSound == C13_QueueSound(st)
 Inv_C13_QueueComplete == C13_QueueComplete(st, gh)
 Inv_C13_NoHalt == C13_NoHalt(ev)
